@@ -19,7 +19,7 @@ def main():
     # through CPVERIF_REPO, so /repo itself is never touched and other runs are not disturbed
     scratch = tempfile.mkdtemp(prefix="cpverif_mutants_")
     sh("git -C /repo archive HEAD | tar -x -C %s && cd %s && git init -q && git add -A && git -c user.name=x -c user.email=x@x commit -q -m scratch" % (scratch, scratch))
-    env = dict(os.environ, CPVERIF_REPO=scratch)
+    env = dict(os.environ, CPVERIF_REPO=scratch, CPVERIF_OUT=os.path.join(scratch, "out"))
     results = []
     selected = [m for m in mutants if not args or any(a in m["name"] for a in args)]
     selected = [m for k, m in enumerate(selected) if k % chunk[1] == chunk[0]]
